@@ -125,6 +125,15 @@ def c17_s2(repo, res):
             res.evaluations += 1
             esc = [e for e in dom.escapes]
             mut = [x for x in dom.mutations if x[0].startswith("P:")]
+            # S19: a second attribute stored as a *view* of another attribute of the same object (`self._flat = self._pixel.reshape(..)`):
+            #      the two share one buffer only until the object is deep-copied (numpy copies a view into an independent array), after
+            #      which in-place edits of one are no longer seen through the other
+            for base, aname, orgs, node in getattr(dom, "attr_stores", []):
+                al = sorted(o for o in orgs if o.startswith("A:self._") and o != f"A:self.{aname}" and base == "self")
+                if al:
+                    res.ob(f"S19:{qn}:{aname}", False)
+                    res.add(Finding("S19", c.mod.rel, f"{qn} (setter)", node, f"`self.{aname}` is stored as a view of {[a[2:] for a in al]}: two attributes share one buffer; after "
+                                    "copy() they are independent arrays, so an in-place edit of the public one is not seen by code reading the other", getattr(node, "lineno", None)))
             triaged = qn in S2_BY_REFERENCE
             ok = (not esc and not mut) or triaged
             res.ob(f"S2:{qn}", ok, {"rule": "S2", "setter": qn, "param_escapes_uncopied": [e[1] for e in esc], "param_mutated": [x[4] for x in mut],
